@@ -6,6 +6,7 @@ from typing import Dict, List, Optional, Set, Tuple
 
 from ..cfg import CFG, Node
 from ..core import AnalysisError, Cls, Fn, Repo, call_name, calls_in, const_value, dotted, get_kw, last_attr, short, walk_no_nested
+from ..pat import has, has_kw
 from ..report import Check
 from ..terms import Poly, TermBuilder, single_atom
 
@@ -79,9 +80,9 @@ def _dispatch(ck: Check, repo: Repo) -> None:
     # containers recurse with the member's own space
     po = repo.fn(AU, "preprocess_observation")
     src = ast.unparse(po.node)
-    ck.ob("C15.1", po, po.node, "observation_space=observation_space[key]" in src and "for key, _obs in observation.items()" in src, "Dict members are prepared with the sub-space of the same key",
+    ck.ob("C15.1", po, po.node, has_kw(src, 'observation_space', '$observation_space[$key]') and has(src, 'for $key, $_obs in $observation.items():\n    ...'), "Dict members are prepared with the sub-space of the same key",
           construct="preprocess_observation Dict recursion")
-    ck.ob("C15.1", po, po.node, "for _obs, _space in zip(observation, observation_space.spaces)" in src and "preprocess_observation(_obs, _space, device, normalize_images)" in src,
+    ck.ob("C15.1", po, po.node, has(src, 'for $_obs, $_space in zip($observation, $observation_space.spaces):\n    ...') and has(src, 'preprocess_observation($_obs, $_space, $device, $normalize_images)'),
           "Tuple members are prepared with the sub-space at the same position", construct="preprocess_observation Tuple recursion")
     # every leaf path ends in maybe_add_batch_dim with that kind's shape
     cfg = CFG(po.node)
@@ -213,9 +214,9 @@ def _batch_dim(ck: Check, repo: Repo) -> None:
     ck.ob("C15.5", fn, rets[0].ast if rets else fn.node, bool(rets) and all(dotted(r.ast.value) == "obs" for r in rets), "the (possibly reshaped) observation is returned")
     gv = repo.fn(AU, "get_vect_dim")
     src = ast.unparse(gv.node)
-    ck.ob("C15.5", gv, gv.node, "array_shape[0] if len(array_shape) > len(observation_space.shape) else 1" in src, "a vectorised observation is recognised by having more axes than its space",
+    ck.ob("C15.5", gv, gv.node, has(src, '$array_shape[0] if len($array_shape) > len($observation_space.shape) else 1'), "a vectorised observation is recognised by having more axes than its space",
           construct="get_vect_dim generic branch")
-    ck.ob("C15.5", gv, gv.node, "get_vect_dim(first_obs, observation_space[first_key])" in src and "get_vect_dim(observation[0], observation_space[0])" in src,
+    ck.ob("C15.5", gv, gv.node, has(src, 'get_vect_dim($first_obs, $observation_space[$first_key])') and has(src, 'get_vect_dim($observation[0], $observation_space[0])'),
           "for Dict / Tuple observations the member and its own sub-space decide", construct="get_vect_dim containers")
 
 
@@ -235,8 +236,8 @@ def _agents(ck: Check, repo: Repo) -> None:
             ck.ob("C15.6", fn, loops[0] if loops else fn.node, okl, f"{q}: every agent's observation is prepared on its own and stored under that agent's id")
     ip = repo.fn("agilerl.algorithms.ippo", "IPPO.preprocess_observation")
     src = ast.unparse(ip.node)
-    ck.ob("C15.6", ip, ip.node, "observation_space=self.observation_space.get(agent_id)" in src and "homo_id = self.get_homo_id(agent_id)" in src and "preprocessed[homo_id].append(" in src
-          and "concatenate_tensors(preprocessed[homo_id])" in src, "IPPO: agents sharing a policy are prepared one by one with their own space and concatenated in agent order",
+    ck.ob("C15.6", ip, ip.node, has_kw(src, 'observation_space', 'self.observation_space.get($agent_id)') and has(src, '$homo_id = self.get_homo_id($agent_id)') and has(src, '$preprocessed[$homo_id].append($_)')
+          and has(src, 'concatenate_tensors($preprocessed[$homo_id])'), "IPPO: agents sharing a policy are prepared one by one with their own space and concatenated in agent order",
           construct="IPPO.preprocess_observation")
     sc = repo.fn(BASE, "MultiAgentRLAlgorithm.stack_critic_observations")
     stacks = [c for c in calls_in(sc.node) if call_name(c) == "torch.stack"]
@@ -256,7 +257,7 @@ def _agents(ck: Check, repo: Repo) -> None:
         g = [(ast.unparse(gg), pol) for gg, pol, _ in cfg.guards_at(n)]
         ck.ob("C15.6", sc, c, any("is_image_space" in t and not pol for t, pol in g), "concatenation is used exactly for non-image spaces", construct=f"cat guard {short(c, 50)}")
     src = ast.unparse(sc.node)
-    ck.ob("C15.6", sc, sc.node, "for i in range(self.n_agents)" in src and "for j in range(self.n_agents)" in src, "members are gathered from every agent in agent order", construct="stack_critic_observations agent order")
+    ck.ob("C15.6", sc, sc.node, has(src, 'for $i in range(self.n_agents):\n    ...') and has(src, 'for $j in range(self.n_agents):\n    ...'), "members are gathered from every agent in agent order", construct="stack_critic_observations agent order")
 
 
 _AUF = "agilerl/utils/algo_utils.py"
